@@ -119,11 +119,15 @@ static inline uint64_t hash_step(uint64_t h, uint64_t v)
 #include <sys/time.h>
 int __real_sigaction(int signum, const struct sigaction *act, struct sigaction *old);
 
+static void (*mon_watchdog_dump)(void);	/* optional: harness state for the log (diagnosis of an inconclusive case) */
+
 static void mon_watchdog_fire(int sig)
 {
 	static const char m[] = "NOTE watchdog: case did not finish in time\n";
 	(void)sig;
 	if (__real_write(mon_out_fd, m, sizeof(m) - 1) < 0) {}
+	if (mon_watchdog_dump != NULL)
+		mon_watchdog_dump();
 	_exit(mon_viol_case ? 3 : 2);
 }
 
